@@ -208,6 +208,20 @@ func checkC07(c *Ctx) {
 		{"a.b eq 1", "O 1 61 I 5"}, {"x eq \"s\"", "O 1 78 T 1 P"}, {"not (x gt true)", "O 1 78 I 1"}, {"x co 1", "O 1 78 I 1"}} {
 		cases = append(cases, c07Case{Rule: hx(w.r), Objs: []string{w.o, w.o}})
 	}
+	// many comparisons that each leave a diagnostic, in one evaluation (a diagnostic must not grow with their number)
+	for _, joiner := range []string{" or ", " and not ("} {
+		var sb strings.Builder
+		for i := 0; i < 48; i++ {
+			if i > 0 {
+				sb.WriteString(joiner)
+			}
+			fmt.Fprintf(&sb, "k%d eq %d", i, i)
+			if i > 0 && joiner != " or " {
+				sb.WriteString(")")
+			}
+		}
+		cases = append(cases, c07Case{Rule: hx(sb.String()), Objs: []string{"O 0", "O 1 6b30 S 61"}})
+	}
 	for i := 0; i < n; i++ {
 		cases = append(cases, gen())
 	}
@@ -221,7 +235,8 @@ func checkC07(c *Ctx) {
 func (c *Ctx) runC07Children(cases []c07Case) {
 	start := 0
 	for start < len(cases) && !c.full() {
-		cmd := exec.Command(c.Self, "-child", "c07")
+		// address space capped at 6 GB: a run-away allocation kills the child (and is reported), not the machine
+		cmd := exec.Command("sh", "-c", "ulimit -v 6000000 2>/dev/null; exec \"$0\" -child c07", c.Self)
 		cmd.Env = append(os.Environ(), "GOMEMLIMIT=2GiB")
 		in, _ := cmd.StdinPipe()
 		out, _ := cmd.StdoutPipe()
